@@ -296,6 +296,16 @@ impl BitFont {
     ///
     /// This function will return an error if .
     pub fn from_bytes(font_name: impl Into<String>, data: &[u8]) -> EngineResult<Self> {
+        let font = BitFont::from_bytes_unchecked(font_name, data)?;
+        // a font without extent (empty data, a header declaring height or width 0) is no font: everything that
+        // lays out cells divides by these
+        if font.size.width <= 0 || font.size.height <= 0 {
+            return Err(FontError::UnknownFontFormat(data.len()).into());
+        }
+        Ok(font)
+    }
+
+    fn from_bytes_unchecked(font_name: impl Into<String>, data: &[u8]) -> EngineResult<Self> {
         if data.len() >= 4 {
             let magic16 = u16::from_le_bytes(data[0..2].try_into().unwrap());
             if magic16 == BitFont::PSF1_MAGIC {
